@@ -925,6 +925,25 @@ impl Check for C08 {
             if flip {
                 v["cfg"]["comments"] = json!(true);
             }
+            // one case in eight: chaining on and an original map of its own (also degenerate ones: no mappings at all, a
+            // first mapping beyond the end of the code) - the trailer has to be in place whatever the chain yields
+            let sel = tape.get(2).copied().unwrap_or(0);
+            if sel & 7 == 7 {
+                let maps = [
+                    r#"{"version":3,"sources":["orig.ts"],"names":[],"mappings":""}"#,
+                    r#"{"version":3,"sources":["orig.ts"],"names":[],"mappings":";;;;;;;;;;;;;;;;;;;;;;;;;;;;;;;;;;;;;;;;;;;;;;;;;;;;;;;;;;;;;;;;;;;;;;;;;;;;;;;;;;;;;;;;;;;;;;;;;;;;;;;;;;;;;;;;;;;;;;;;;;;;;;;;;;;;;;;;;;;;;;;;;;;;;;;;;;;;;;;;;;;;;;;;;;;;;;;;;;;;;;;;;;;;;;;;;;;;;;AAAA"}"#,
+                    r#"{"version":3,"sources":["orig.ts"],"names":["n"],"mappings":"AAAAA;AACA;AACA;AACA"}"#,
+                    r#"{"version":3,"sources":[],"names":[],"mappings":"A"}"#,
+                ];
+                let m = maps[((sel >> 3) & 3) as usize];
+                v["cfg"]["chainSourceMap"] = json!(true);
+                let src = v["src"].as_str().unwrap_or("").to_string();
+                let nl = if src.ends_with('\n') { "" } else { "\n" };
+                v["src"] = json!(format!("{src}{nl}//# sourceMappingURL=data:application/json;base64,{}\n", smap::encode_base64(m.as_bytes())));
+                if let Some(t) = v["tags"].as_array_mut() {
+                    t.push(json!("chained-original-map"));
+                }
+            }
             return v;
         }
         let mut t = Tape::new(&tape[2.min(tape.len())..]);
